@@ -118,6 +118,8 @@ def execute(name, state40, first_round, junk, entry="ascon_permute"):
     m = mk(program_text(name))
     # AVR objects have alignment 1: the state starts anywhere, page-straddling included (word-aligned on the other targets)
     sa = m.STATE_ADDR + ((junk[3] & 0x1FF) if isinstance(m, emu.Avr) else 0)
+    if (isinstance(m, emu.A64) or (isinstance(m, emu.RiscV) and m.xlen == 64)) and junk[3] & 3 == 0:
+        sa = [0x7f00000000, 0x550100000000, 0xffff80000000, 0x100000000][(junk[3] >> 2) & 3]      # 64-bit pointers: nothing special about the low half
     m.add_region(sa, to_l(state40), "state")
     m.setup(sa, first_round, 0, junk)
     problems = []
